@@ -572,7 +572,11 @@ def run_scenario(desc, work):
                         cases.append(double_fault(scn, thr, template, work, kinds0, (s, n, en), f2, clean_out))
         # ---- handled fault + follow-up through the same handle
         fplan = []
-        if probe == "all":
+        # no follow-ups where the job directory is MISSING (remove / clear of a job that is not there): such a handle can
+        # only be made by state point (open_job(id=...) of a missing directory fails), it holds its state point in
+        # memory, and the handle model of remove / clear (Crash.op1_h: hs_sp = None, "loads and validates the file on
+        # first access") describes handles opened by id - the follow-up model is not defined for that provenance
+        if probe == "all" and scn["dest"] != "missing":
             fos = follow_ups_for(scn)
             mutating = [(s, n) for (s, n, _) in events if s[0] in ("SgRename", "SgMkdir", "SgOpen", "SgWrite", "SgUnlink", "SgRmdir")]
             others = [(s, n) for (s, n, _) in events if (s, n) not in mutating]
